@@ -136,6 +136,15 @@ class C09Oracle(Oracle):
     def after_step(self):
         for ep in self.sim.endpoints:
             self._observe(ep)
+            seen = self.st[ep.name].pop("peer_close_seen", None)
+            if seen is not None and ep.conn is not None and not ep.broken and \
+                    ep.conn._state.name not in ("CLOSING", "DRAINING", "TERMINATED"):
+                raise Violation("c09.peer-close", "close-frame-not-acted-upon:" + ep.conn._state.name,
+                                "%s received the peer's CONNECTION_CLOSE in a 1-RTT packet at t=%.4f (datagram: %s) and "
+                                "is still in state %s: the closing period has not started" % (
+                                    ep.name, seen[0], seen[1], ep.conn._state.name))
+            if ep.stalled_until is not None:
+                self.st[ep.name]["stall_end"] = ep.clock_offset + ep.stalled_until * ep.clock_rate
 
     def _observe(self, ep):
         conn = ep.conn
@@ -191,6 +200,7 @@ class C09Oracle(Oracle):
             self.junk_done = True
             self.junk_first(dgram)
         s = self.st[ep.name]
+        self._note_tx(ep, dgram)
         if ep.terminated:
             raise Violation("c09.after-termination", "datagram-after-termination",
                             "%s sent a %d-byte datagram after it reported termination" % (ep.name, len(dgram.data)))
@@ -204,7 +214,51 @@ class C09Oracle(Oracle):
                                 [p.summary() for p in (dgram.meta or [])]))
 
     def on_datagram_delivered(self, ep, dgram, copy_index):
-        self.st[ep.name]["last_rx"] = self.sim.k.now
+        s = self.st[ep.name]
+        s["last_rx"] = self.sim.k.now
+        s["last_rx_local"] = ep.now()
+        s["first_tx_after_rx"] = None
+        # a peer close the endpoint can read (1-RTT packet, its handshake is complete): "starting to close"
+        # (not in the fatal variant: forged packets there use up packet numbers of the genuine sender, whose
+        # closing packet may then be a duplicate for the receiver)
+        if ep.handshake_complete and not ep.terminated and dgram.sender in ("client", "server") and \
+                not self.sim.profile.get("fatal_frames"):
+            for p in dgram.meta or []:
+                if not p.opaque and p.ptype == "1rtt" and any(
+                        f.name in ("CONNECTION_CLOSE", "CONNECTION_CLOSE_APP") for f in p.frames):
+                    s["peer_close_seen"] = (self.sim.k.now, [q.summary() for q in dgram.meta])
+
+    def _note_tx(self, ep, dgram):
+        # RFC 9000 10.1: the idle period restarts when a packet is received, and when the FIRST ack-eliciting
+        # packet after that is sent
+        s = self.st[ep.name]
+        if s.get("first_tx_after_rx") is None and any(
+                (not p.opaque) and p.ack_eliciting for p in (dgram.meta or [])):
+            s["first_tx_after_rx"] = ep.now()
+
+    def _check_idle_deadline(self, ep):
+        """an idle timeout must not come later than the negotiated period after the last activity"""
+        s = self.st[ep.name]
+        conn = ep.conn
+        idle = ep.config.idle_timeout
+        if getattr(conn, "_remote_max_idle_timeout", None) is not None and ep.peer.config is not None:
+            idle = min(idle, ep.peer.config.idle_timeout)  # the peer's parameters have been processed
+        idle = max(idle, 3 * own_pto(conn))
+        acts = [x for x in (s.get("last_rx_local"), s.get("first_tx_after_rx")) if x is not None]
+        if not acts:
+            return
+        late = self.sim.last_timer_lateness.get(ep.name, 0.0)
+        took = ep.now() - max(acts)
+        if s.get("stall_end") is not None and s["stall_end"] >= max(acts):
+            return  # a stalled endpoint handles its timer when it wakes up
+        self.n_idle_checked = getattr(self, "n_idle_checked", 0) + 1
+        if took > idle + late + 0.005:
+            raise Violation("c09.idle", "idle-timeout-later-than-negotiated",
+                            "%s: idle timeout reported %.3f s after its last activity (last datagram received / first "
+                            "ack-eliciting packet sent after it); the negotiated idle period is %.3f s (own %.1f, "
+                            "peer %.1f, 3 x PTO %.3f), timer lateness %.4f" % (
+                                ep.name, took, idle, ep.config.idle_timeout,
+                                ep.peer.config.idle_timeout if ep.peer.config else -1, 3 * own_pto(conn), late))
 
     def on_event(self, ep, ev):
         s = self.st[ep.name]
@@ -219,6 +273,8 @@ class C09Oracle(Oracle):
             if c is None:
                 self._observe(ep)
                 c = s["closing"]
+            if ev.reason_phrase == "Idle timeout" and ev.error_code == 0x1 and s["closing"] is None:
+                self._check_idle_deadline(ep)
             if c is not None and ev.reason_phrase != "Idle timeout":
                 late = self.sim.last_timer_lateness.get(ep.name, 0.0)
                 took = ep.now() - c["at"]
